@@ -989,6 +989,7 @@ func main() {
 	for _, m := range dnaModels[1:] {
 		mon.Floor("reparam:"+m, 500)
 	}
+	mon.Floor("concurrent:matrices", 10000)
 	mon.Floor("tables:literature-matrix", 2)
 	mon.Floor("tables:literature-frequencies", 4)
 	mon.Floor("check:semigroup", 10000)
@@ -1017,6 +1018,7 @@ func main() {
 	mon.Main("C18", []mon.Sub{
 		{Name: "witness", Quick: nWitness, Thorough: nWitness, Run: runWitness},
 		{Name: "tables", Quick: 7, Thorough: 7, Run: runTables},
+		{Name: "concurrent", Quick: 96, Thorough: 1920, Race: true, Run: runConcurrent},
 		{Name: "reparam", Quick: 30000, Thorough: 600000, Run: runReparam},
 		{Name: "dna", Quick: 120000, Thorough: 3000000, Run: runDNA},
 		{Name: "protein", Quick: 6000, Thorough: 150000, Run: runProtein},
